@@ -879,7 +879,7 @@ _SCALE_NOTE = (" Scale profiles (families scale_*): the same executors and model
                "histories of thousands of rounds; EINTR bursts of 255 ... 4097 (2^16 ... 2^21+1 harness-only) at a carry-over refill; block sizes 2^k-1 "
                "that leave one byte of room in the arena chunk; owners of arena memory dropped by the unwinder of a caught panic. Extra direct oracles "
                "in the wrapper: C03 readable = total_size when nothing is pending, C05 overlapping arena slices in one iovec / bytes changing under a "
-               "live anchored slice, C09 drained ++ consumable is a growing prefix and drained ++ finish() equals a one-call run, C10 counters after a "
+               "live anchored slice, C01 the real decoder gives the input back from drained ++ finish(), C09 drained ++ consumable is a growing prefix and drained ++ finish() equals a one-call run, C10 counters after a "
                "caught panic, C17 request sizes. 'harness-only' cases run the real code and the oracles but are not replayed by the model.")
 
 def _scale(pid, name, obs, quick, thorough, search, shards_q=8):
@@ -901,3 +901,5 @@ _scale("C06", "scale_reader", None, 16, 320, 640)
 _scale("C08", "scale_chunker", None, 16, 320, 640)
 _scale("C17", "scale_chunker", None, 16, 320, 640)
 _scale("C17", "scale_codec", ["A", "S", "G", "R"], 4, 160, 320, 4)
+# > 1024 borrowed pieces through the Encoder / Decoder with no drain, megabyte streams: round trip of drained ++ finish()
+_scale("C01", "scale_codec", ["A", "R"], 4, 160, 320, 4)
